@@ -43,9 +43,35 @@ def emitted_expectations(case, o):
                     dp = next(p for n, p in s["ins"].items() if n != "__size__")
                     e = one(s["ins"]["__size__"], tag) + [i for t, i in by_port[dp]
                                                             if t.rsplit(".", 1)[0] == tag and i is not None]
+                elif k == "exec":
+                    jp = s["n"].strip("/") + "__job__"
+                    e = [i for p in s["ins"].values() for i in one(p, tag)] + one(jp, tag)
                 else:
                     e = list(log.get(tid, []))
                 exp[tid] = sorted(set(e))
+        if k == "exec":
+            # the JobToken of tag T <- the deployment token(s) + the tokens tagged T on every data input port
+            jp = s["n"].strip("/") + "__job__"
+            dep = [i for _, i in by_port.get("__deploy__", []) if i is not None]
+            for tag, tid in by_port.get(jp, []):
+                if tid is None:
+                    problems.append(f"job token {tag} of {s['n']} has no persistent id")
+                    continue
+                exp[tid] = sorted(set(dep + [i for p in s["ins"].values() for i in one(p, tag)]))
+    for _, tid in by_port.get("__deploy__", []):
+        if tid is not None:
+            exp[tid] = []
+    # orphans: a token row that is on no port although provenance was written for it.  This is what a cancelled
+    # `port.put(await self._persist_token(...))` leaves behind (ExecuteStep cancels sibling jobs when one fails):
+    # the token was never emitted, so the property says nothing about it; its recorded edges are taken as they are
+    # (they still have to be well-ordered and join persisted tokens).
+    on_ports = {i for ids in o["mem_ids"].values() for i in ids}
+    deps = {}
+    for a, b in o["prov"]:
+        deps.setdefault(b, []).append(a)
+    for b, das in deps.items():
+        if b not in on_ports and b not in exp:
+            exp[b] = sorted(das)
     return exp, problems
 
 
@@ -62,6 +88,8 @@ def discipline_ops(o):
     if allocs != list(range(start, start + len(allocs))):
         return None
     id_of = {e[1]: e[2] for e in ev if e[0] == "end"}          # call k -> id
+    if any(e[0] == "begin" and e[1] not in id_of for e in ev):
+        return None                                            # a cancelled _persist_token call
     k_of = {v: k for k, v in id_of.items()}
     ops, edges, dummy = [], [], 100000
     begun = {}
@@ -104,12 +132,15 @@ class C07(Prop):
         "Additionally a theorem about the writing discipline of _persist_token (get_entity_ids, then save, then "
         "add_provenance, arbitrarily interleaved between steps): every edge ever written goes from an older to a "
         "newer allocated id, for all interleavings; the recorded interleavings of real runs are replayed through "
-        "that model. Recovery workloads are not covered.")
+        "that model. Executions with rollback recovery (C16's generator) are checked structurally only: well-ordered "
+        "acyclic relation over persisted tokens, every emitted token of a job-bound step linked, dependees on the same "
+        "branch of the tag tree; exact dependee sets after rollback are not checked.")
     LEVEL_NOTE = ("translation validation by a proven-sound checker; completeness per step class is decided per run, not "
-                  "proved; 'persisted before' relies on SQLite allocating increasing rowids (trusted); runs with "
-                  "recovery are not generated")
+                  "proved; 'persisted before' relies on SQLite allocating increasing rowids (trusted); after rollback "
+                  "recovery only structural clauses are checked")
     TECHNIQUE = "proven-sound checker evaluated in Coq on table dumps + Coq theorem on the write discipline"
-    RULE = ("the C04 workloads (see C04) with the database dumped at quiescence; non-trivial = at least 3 emitted "
+    RULE = ("the C04 workloads (see C04, incl. Deploy/Schedule/Execute pipelines with misaligned input ports) with the "
+            "database dumped at quiescence, plus 12 executions with injected faults and rollback recovery (C16 generator); non-trivial = at least 3 emitted "
             "tokens; distinct = distinct canonical JSON")
     TRUSTED = ("SQLite INTEGER PRIMARY KEY allocation order; aiosqlite; the dump (SELECT over token and provenance) "
                "and the in-memory port lists read by the harness",
@@ -128,6 +159,17 @@ class C07(Prop):
             c = netlib.gen_sg_net(rng)
             c["f"] = "prov"
             cases.append(c)
+        for _ in range({"quick": 40, "thorough": 200, "extended": 120}[tier]):
+            c = netlib.gen_exec_net(rng, fail_p=0.3)
+            c["f"] = "prov"
+            cases.append(c)
+        # executions WITH recovery: the generator of C16 (pipelines / scatter-gather / diamonds of Schedule, Transfer,
+        # Execute steps on a volatile local deployment, injected soft and fail-stop faults, rollback failure manager)
+        from harness.props.c16 import PROP as P16
+
+        rc = [c for c in P16.gen(rng, "quick" if tier == "quick" else "extended") if c.get("faults")]
+        for c in rc[:{"quick": 12, "thorough": 60, "extended": 40}[tier]]:
+            cases.append({**c, "f": "recov"})
         return cases
 
     def impl_init(self):
@@ -136,7 +178,52 @@ class C07(Prop):
         self.env = netlib.Env()
         logging.getLogger("streamflow").setLevel(logging.CRITICAL)
 
+    def _run_recov(self, c):
+        """a run of b-recovery's engine driver (read-only reuse); the tables are dumped just before the context closes"""
+        import asyncio
+
+        from harness.props import _recov
+        from streamflow.workflow.token import TerminationToken
+
+        holder = {}
+
+        def hook(context, wf):
+            orig = context.close
+
+            async def close():
+                try:
+                    db = context.database
+                    async with db.connection as cn:
+                        async with cn.execute("SELECT id, port, tag, type FROM token ORDER BY id") as cur:
+                            rows = await cur.fetchall()
+                        async with cn.execute("SELECT dependee, depender FROM provenance ORDER BY depender, dependee") as cur:
+                            prov = [[r[0], r[1]] for r in await cur.fetchall()]
+                    holder["tokens"] = [[r[0], r[1], r[2], r[3].rsplit(".", 1)[-1]] for r in rows]
+                    holder["prov"] = prov
+                    main = {}
+                    for st in wf.steps.values():
+                        kind = next((b.__name__ for b in type(st).__mro__
+                                     if b.__name__ in ("ExecuteStep", "TransferStep", "ScheduleStep", "InputInjectorStep",
+                                                       "ScatterStep", "GatherStep", "DeployStep")), "other")
+                        for pn in st.output_ports.values():
+                            po = wf.ports[pn]
+                            main.setdefault(pn, {"kind": kind, "step": st.name, "ids": []})
+                            main[pn]["ids"] = [[t.tag, t.persistent_id] for t in po.token_list
+                                               if not isinstance(t, TerminationToken)]
+                    holder["main"] = main
+                finally:
+                    await orig()
+
+            context.close = close
+
+        o = _recov.run_engine(c, hooks=hook)
+        out = {"ret": "hang" if o.get("hang") else o.get("result", "?"), "recoveries": sum(1 for e in o.get("trace", []) if e and e[0] == "recover")}
+        out.update(holder)
+        return out
+
     def impl_run(self, c):
+        if c["f"] == "recov":
+            return self._run_recov(c)
         o = netlib.run_net(self.env, c, want_db=True)
         return {k: o[k] for k in ("ret", "ports", "persisted", "tokens", "prov", "port_ids", "mem_ids", "dbev",
                                   "raised") if k in o}
@@ -147,6 +234,8 @@ class C07(Prop):
             return ("hang", f"crashed or hung: {str(o)[:300]}")
         if o["ret"] == "hang":
             return ("hang", "run() never returned")
+        if c["f"] == "recov":
+            return self._oracle_recov(c, o)
         rows = {r[0]: r for r in o["tokens"]}
         exp, problems = emitted_expectations(c, o)
         if problems:
@@ -188,9 +277,69 @@ class C07(Prop):
                 return ("cycle", "the provenance relation has a cycle")
         return None
 
+    def _oracle_recov(self, c, o):
+        """after an execution with rollbacks: the relation is well-formed and acyclic, every token on a port of the
+        workflow is persisted, every token emitted by a job-bound step has recorded dependees, and every dependee
+        carries a tag on the same branch of the tag tree as its depender (it was computed from tokens of its own
+        tag, its ancestors' or its descendants', never from a sibling's)"""
+        if "tokens" not in o:
+            return ("hang", f"no table dump: {str(o)[:200]}")
+        rows = {r[0]: r for r in o["tokens"]}
+        deps = {}
+        for a, b in o["prov"]:
+            if a not in rows or b not in rows:
+                return ("dangling-edge", f"edge ({a},{b}) names a token that is not persisted")
+            if not a < b:
+                return ("order", f"edge ({a},{b}): dependee not persisted before depender")
+            deps.setdefault(b, []).append(a)
+
+        def related(x, y):
+            xs, ys = x.split("."), y.split(".")
+            k = min(len(xs), len(ys))
+            return xs[:k] == ys[:k]
+
+        for pn, d in sorted(o["main"].items()):
+            for tag, tid in d["ids"]:
+                if tid is None or tid not in rows:
+                    return ("not-persisted", f"token {tag} on port {pn} of {d['step']} is not persisted (id {tid})")
+                if d["kind"] in ("ExecuteStep", "TransferStep", "ScheduleStep", "InputInjectorStep") and not deps.get(tid):
+                    return ("no-dependees", f"token {tid} ({tag}) emitted by {d['step']} has no recorded dependee")
+        for b, das in deps.items():
+            for a in das:
+                if not related(rows[a][2], rows[b][2]):
+                    return ("tag-unrelated", f"token {b} (tag {rows[b][2]}) is linked to token {a} of tag {rows[a][2]}")
+        color = {}
+
+        def dfs(x):
+            color[x] = 1
+            for y in deps.get(x, []):
+                if color.get(y) == 1 or (y not in color and dfs(y)):
+                    return True
+            color[x] = 2
+            return False
+
+        import sys
+        sys.setrecursionlimit(10000)
+        for x in list(deps):
+            if x not in color and dfs(x):
+                return ("cycle", "the provenance relation has a cycle")
+        return None
+
     def coq_case(self, c, o):
         if "crash" in o or "hang" in o or o.get("ret") == "hang":
             return None
+        if c["f"] == "recov":
+            if "tokens" not in o:
+                return None
+            deps = {}
+            for a, b in o["prov"]:
+                deps.setdefault(b, []).append(a)
+            toks = coq_list([coq_N(r[0]) for r in o["tokens"]])
+            edges = coq_list([f"({coq_N(a)}, {coq_N(b)})" for a, b in o["prov"]])
+            ex = coq_list([f"({coq_N(t)}, {coq_list([coq_N(i) for i in sorted(e)])})" for t, e in sorted(deps.items())])
+            structural = self._oracle_recov(c, o)
+            ok = structural is None or structural[0] in ("no-dependees", "tag-unrelated", "not-persisted")
+            return f"CProv {toks} {edges} {ex} {coq_bool(ok)}"
         if c.get("_disc"):
             d = discipline_ops(o)
             if d is None:
@@ -205,13 +354,37 @@ class C07(Prop):
         return f"CProv {toks} {edges} {ex} {coq_bool(self.oracle(c, o) is None)}"
 
     def nontrivial(self, c):
+        if c["f"] == "recov":
+            return True
         return sum(len(v) for v in c["inputs"].values()) * len(c["steps"]) >= 3
 
     def signature(self, c, o, clause):
+        if c["f"] == "recov":
+            return f"recov/{clause}/{c['shape']['kind']}"
         kinds = sorted({s["k"] for s in c["steps"]})
+        if clause == "wrong-dependees" and self._mismatch_class(c, o) == "job-pairing":
+            return "prov/wrong-dependees/job-pairing"
         return f"prov/{clause}/{'+'.join(kinds)}"
 
+    def _mismatch_class(self, c, o):
+        """job-pairing: the only wrong thing is WHICH JobToken of the step an ExecuteStep output is linked to"""
+        exp, _ = emitted_expectations(c, o)
+        job_ids = {r[0] for r in o["tokens"] if r[3] == "JobToken"}
+        deps = {}
+        for a, b in o["prov"]:
+            deps.setdefault(b, []).append(a)
+        for t, e in exp.items():
+            got = set(deps.get(t, []))
+            if got != set(e) and not ((got ^ set(e)) <= job_ids and len(got) == len(e)):
+                return "other"
+        return "job-pairing"
+
     def shrink(self, c):
+        if c["f"] == "recov":
+            for i in range(len(c["faults"])):
+                if len(c["faults"]) > 1:
+                    yield {**c, "faults": c["faults"][:i] + c["faults"][i + 1:]}
+            return
         used = netlib.consumers(c)
         if len(c["steps"]) > 1 and not any(p in used for p in c["steps"][-1]["outs"].values()):
             d = copy.deepcopy(c)
@@ -230,8 +403,8 @@ class _Two(C07):
 
     def coq_case(self, c, o):
         a = super().coq_case(c, o)
-        if a is None:
-            return None
+        if a is None or c["f"] == "recov":
+            return a
         b = super().coq_case({**c, "_disc": True}, o)
         return a if b is None else f"CAnd ({a}) ({b})"
 
